@@ -163,6 +163,10 @@ Definition strictly_above (d : nat) (P : list (list Z)) (q : list Z) : Prop :=
     (forall c, (1 <= c <= d)%nat -> dot w (col P c) = W * nth c q 0) /\
     dot w (col P 0) < W * nth 0 q 0.
 
+(* y -> a*y + c on the target *)
+Definition zaffine (a c : Z) (P : list (list Z)) : list (list Z) :=
+  map (fun p => (a * nth 0 p 0 + c) :: tl p) P.
+
 (* ---- executable simplex form ---------------------------------------------------- *)
 Fixpoint subsets {A} (k : nat) (l : list A) : list (list A) :=
   match k, l with
@@ -206,8 +210,10 @@ Fixpoint remove_nth {A} (i : nat) (l : list A) : list A :=
   | _ :: t, O => t
   | a :: t, S i' => a :: remove_nth i' t
   end.
+(* some d+1 OTHER samples (ids js) form such a simplex *)
 Definition not_lower_b (d : nat) (P : list (list Z)) (i : nat) : bool :=
-  exists_lazy (fun S => simplex_witness S (nth i P [])) (subsets (S d) (remove_nth i P)).
+  exists_lazy (fun js => simplex_witness (map (fun j => nth j P []) js) (nth i P []))
+              (subsets (S d) (remove_nth i (seq 0 (length P)))).
 Definition lower_vertex_b (d : nat) (P : list (list Z)) (i : nat) : bool := negb (not_lower_b d P i).
 Definition lower_vertices (d : nat) (P : list (list Z)) : list nat :=
   filter (lower_vertex_b d P) (seq 0 (length P)).
@@ -261,12 +267,14 @@ Definition sel_model_ok (fs : list facet) (sel : list nat) : bool := nl_eqb (sel
 Definition sel_spec_ok (low : list nat) (X : list (list Z)) (y : list Z) (sel : list nat) : bool :=
   nl_eqb (lower_vertices (length low) (hull_points_Z low X y)) sel.
 (* (D) score_samples of the model on the observed facets vs. the implementation's output *)
-Definition dist_ok_with (keep : Q -> Q -> bool) (rtol atol tol : Q) (fs : list facet)
-                   (low : list nat) (X : list (list Q)) (y : list Q) (obs : list Q) : bool :=
-  all2 (oqclose rtol atol) (score_samples_with keep tol (lower_facets fs) low X y) obs.
-Definition dist_ok := dist_ok_with keep_fixed.
+(* one verdict per point, preceded by a shape check *)
+Definition dist_oks_with (keep : Q -> Q -> bool) (rtol atol tol : Q) (fs : list facet)
+                   (low : list nat) (X : list (list Q)) (y : list Q) (obs : list Q) : list bool :=
+  (Nat.eqb (length X) (length obs) && Nat.eqb (length y) (length obs))
+  :: map2 (oqclose rtol atol) (score_samples_with keep tol (lower_facets fs) low X y) obs.
+Definition dist_oks := dist_oks_with keep_fixed.
 (* informational: the masking as found in the code (see Findings/F15) *)
-Definition dist_found_ok := dist_ok_with keep_found.
+Definition dist_found_oks := dist_oks_with keep_found.
 
 (* (C) one hull dimension, any n: [perm] lists the samples by increasing x; the chain's
    vertices (as sample ids, sorted) equal selected_idx_ *)
